@@ -46,6 +46,11 @@ pub trait Crdt {
     fn admit(_name: &str, op: Self::Op) -> Option<Self::Op> {
         Some(op)
     }
+    /// C17 oracle, computed from the two states independently of `validate_merge`: is some dot the current witness of
+    /// one member/key in `a` and of a DIFFERENT one in `b`?  (None = not applicable to the type)
+    fn shared_live_dot(_a: &Self::S, _b: &Self::S) -> Option<bool> {
+        None
+    }
     /// the dot an op carries, if any (freshness oracle of C07)
     fn op_dot(_op: &Self::Op) -> Option<String> {
         None
@@ -208,7 +213,15 @@ impl<T: Crdt> Machine<T> {
             "VM" => {
                 let r = self.rep(toks.get(1)?)?;
                 let r2 = self.rep(toks.get(2)?)?;
-                Some(format!("vm={}", T::validate_merge(&self.reps[r], &self.reps[r2])))
+                let verdict = T::validate_merge(&self.reps[r], &self.reps[r2]);
+                // misuse must be flagged, and only misuse: `dsd` iff a live dot is shared by different members/keys
+                let chk = match T::shared_live_dot(&self.reps[r], &self.reps[r2]) {
+                    // a shared live dot must be flagged (with `dsd`, or – Map – with a nested `value` error found first);
+                    // without one `dsd` must not be reported
+                    Some(shared) => if (shared && verdict != "ok") || (!shared && verdict != "dsd") { " vmchk=ok" } else { " vmchk=FAIL" },
+                    None => "",
+                };
+                Some(format!("vm={}{}", verdict, chk))
             }
             "VS" => {
                 let r = self.rep(toks.get(1)?)?;
